@@ -86,8 +86,9 @@ static int nbrs(int nk, int nth, int c, int *out) {
 }
 
 static int call_partition(int nk, int nth, int ihmax, int shift, const float *z, int *lab /* [k*nth+t] */) {
-  static float spec[MAXC];
-  static int ipart[MAXC];
+  /* exact-size heap buffers, like the arrays the python wrapper hands over: an overrun hits an ASan red zone */
+  float *spec = (float *)malloc(sizeof(float) * nk * nth);
+  int *ipart = (int *)malloc(sizeof(int) * nk * nth);
   int k, t;
   memcpy(spec, z, sizeof(float) * nk * nth);
   cur_nk = nk; cur_nth = nth; cur_ihmax = ihmax; cur_shift = shift;
@@ -98,6 +99,8 @@ static int call_partition(int nk, int nth, int ihmax, int shift, const float *z,
   if (memcmp(spec, z, sizeof(float) * nk * nth) != 0) viol("input-modified", nk, nth, ihmax, shift, z);
   for (k = 0; k < nk; k++)
     for (t = 0; t < nth; t++) lab[k * nth + t] = ipart[k + nk * t];
+  free(spec);
+  free(ipart);
   return 0;
 }
 
